@@ -133,6 +133,37 @@ def root_main(job):
                 "text": "step %d: %s %s %s by client %d: resource exists=%s after the request, reference model says %s (count now %s)" % (i, cmd, name, rtype, client, now, want, count.get(key)),
             }
             break
+    nb = int(job.get("burst") or 0)
+    if nb and report["violation"] is None:
+        # a burst of requests written faster than the tracker reads them (it is also busy unlinking): every single line must
+        # still be applied exactly once - n registrations of distinct files, fence, all must exist; n maybe_unlinks, fence, all gone
+        bd = os.path.join(base, "burst")
+        os.makedirs(bd, exist_ok=True)
+        paths = [os.path.join(bd, "b%04d-%s" % (i, "x" * (i % 37))) for i in range(nb)]
+        for q in paths:
+            open(q, "w").close()
+        for q in paths:
+            rt.register(q, "file")
+        for q in paths[::2]:
+            rt.register(q, "file")  # count 2 for every other one
+        for q in paths[::2]:
+            rt.maybe_unlink(q, "file")
+        ok = _fence(rt, base, "root", 10**6)
+        missing = [q for q in paths if not os.path.exists(q)]
+        if not ok:
+            report["violation"] = {"clause": "tracker_stopped_consuming", "text": "fence after a burst of %d requests was never processed" % (2 * nb)}
+        elif missing:
+            report["violation"] = {"clause": "destroyed_while_counted", "text": "burst of %d requests: %d files with a positive count were destroyed, e.g. %s" % (2 * nb, len(missing), missing[:3])}
+        else:
+            for q in paths:
+                rt.maybe_unlink(q, "file")
+            ok = _fence(rt, base, "root", 10**6 + 1)
+            left = [q for q in paths if os.path.exists(q)]
+            if not ok:
+                report["violation"] = {"clause": "tracker_stopped_consuming", "text": "second fence after the burst was never processed"}
+            elif left:
+                report["violation"] = {"clause": "not_destroyed_at_zero", "text": "burst of %d requests: %d files whose count reached zero still exist (a request line was lost or mangled), e.g. %s" % (2 * nb, len(left), left[:3])}
+        report["burst"] = nb
     for p, conn in kids:
         try:
             conn.send(None)
